@@ -79,6 +79,9 @@ def is_md_rank3(case):
 
 
 def uses_inexact_norm(case):
+    """does the case involve float32 rounding (non-dyadic normalisation range, or float64 inputs that are rounded by .float())?"""
+    if any(l["t"] == "box" and l["low"] == -3 for l in leaves(case["space"])):
+        return True
     if not case.get("normalize"):
         return False
     for l in leaves(case["space"]):
@@ -111,6 +114,8 @@ def leaf_array(leaf, lead, pat=0, trail=None, bad=None):
             v = ((7 * i + pat) % 23) / 4.0
         elif lo == 0 and hi == 1:
             v = ((3 * i + pat) % 9) / 8.0
+        elif lo == -3:                                   # float64 values that float32 cannot represent exactly
+            v = ((7 * i + pat) % 61 - 30) / 10.0
         elif lo == -1:
             v = ((5 * i + 3 * pat) % 17 - 8) / 8.0
         else:
